@@ -611,23 +611,23 @@ func (engine *Engine) getMaxBlockProposers(sum *chain.BlockSummary) (uint64, err
 	return thor.GetMaxBlockProposers(builtin.Params.Native(state), true)
 }
 
-func (engine *Engine) getQuality(id thor.Bytes32) (quality uint32, err error) {
+func (engine *Engine) getQuality(id thor.Bytes32) (uint32, error) {
 	if cached, ok := engine.caches.quality.Get(id); ok {
 		return cached.(uint32), nil
 	}
 
-	defer func() {
-		if err == nil {
-			engine.caches.quality.Add(id, quality)
+	quality, err := loadQuality(engine.data, id)
+	if err != nil {
+		// No quality saved yet. The 0 is not cached: Justified() runs on API goroutines, and a reader
+		// that looked the record up just before CommitBlock recorded it would otherwise insert its
+		// stale 0 after CommitBlock's entry and make the importer compute wrong qualities from it.
+		if engine.data.IsNotFound(err) {
+			return 0, nil
 		}
-	}()
-
-	quality, err = loadQuality(engine.data, id)
-	// no quality saved yet
-	if engine.data.IsNotFound(err) {
-		return 0, nil
+		return 0, err
 	}
-	return
+	engine.caches.quality.Add(id, quality)
+	return quality, nil
 }
 
 func getCheckPoint(blockNum uint32) uint32 {
